@@ -292,7 +292,7 @@ class _FailItems:
 
 
 def run(ctx):
-    n = 50 if ctx.tier == "quick" else 320
+    n = 50 if ctx.tier == "quick" else 900
     core.WARM_P = 0.1
     if ctx.replay:
         c = ctx.replay["case"]
